@@ -10,8 +10,8 @@ CHECKS = {
         "technique": "Lean 4 theorems (window lemmas per reader) + differential correspondence",
     },
     "C05": {
-        "text": "Lean theorem parse_render_partial over the model of idl.go: every description rendered from a layouted syntax tree (any type nesting, any member sequence, layout atoms space/tab/CR/LF/comment in every gap the grammar has, CRLF, last comment without newline) inside the grammar and inside three decidable layout guards is accepted with exactly the tree it denotes - name, members in source order, field names and type constructors as written, Doc = the comment block above each member, description verbatim; corollaries layout_independent, docs_from_block, members_in_source_order; the unguarded statement is refuted in Lean by witnesses (the known finding). The string literals of idl.go (regexps, keywords, messages) are regenerated from the source and pinned by theorem source_literals. Tied to the code by generated trees (all types up to 3 nodes in every member position x the whole layout pool in the thorough tier, random large trees x random layouts) whose real parse is compared field by field with the generated tree and with the model's.",
-        "note": "Partial: the three guards (member starts on a new line; an error's type on the line of its name; no line break between `interface` and the name) exclude layouts on which idl.go deviates - listed as findings with witnesses in lean/VarlinkProofs/Props/C05.lean. Trusted: Lean kernel, harness and generator (incl. its definition of the comment block above a member), hand-written model (validated differentially).",
+        "text": "Lean theorem parse_render_partial over the model of idl.go: every description rendered from a layouted syntax tree (any type nesting, any member sequence, layout atoms space/tab/CR/LF/comment in every gap the grammar has, CRLF, last comment without newline) inside the grammar and inside two decidable layout guards is accepted with exactly the tree it denotes - name, members in source order, field names and type constructors as written, Doc = the comment block above each member, description verbatim; corollaries layout_independent, docs_from_block, members_in_source_order; the unguarded statement is refuted in Lean by witnesses (the known finding). The string literals of idl.go (regexps, keywords, messages) are regenerated from the source and pinned by theorem source_literals. Tied to the code by generated trees (all types up to 3 nodes in every member position x the whole layout pool in the thorough tier, random large trees x random layouts) whose real parse is compared field by field with the generated tree and with the model's.",
+        "note": "Partial: the two guards (member starts on a new line; an error's type on the line of its name) exclude layouts on which idl.go deviates - listed as findings with witnesses in lean/VarlinkProofs/Props/C05.lean. Trusted: Lean kernel, harness and generator (incl. its definition of the comment block above a member), hand-written model (validated differentially).",
         "technique": "Lean 4 theorems (forward lemmas per reader, induction on layouted trees) + regenerated source literals + generated differential correspondence",
     },
 }
